@@ -310,7 +310,16 @@ def gen_format(rng, d):
         names.append(nm)
         raws.append((nm, t, spf))
     lines.append("k CONST FLOAT64 2.5")
+    lines.append("z0 CONST UINT16 0")
     lines.append("ka CARRAY INT32 1 2 3 4")
+    # scalar-parameter indirection: zero / out-of-range / missing scalars as spf and parameters
+    sc = lambda: rng.choice(["z0", "k", "ka", "ka<1>", "ka<3>", "ka<4>", "ka<7>", "ka<100000000>", "ka<-1>", "nosuch", "st", "k<2>"])
+    for i in range(rng.randint(0, 2)):
+        nm = "q%d" % i
+        t = rng.choice(TYPES)
+        lines.append("%s RAW %s %s" % (nm, t, sc()))
+        names.append(nm)
+        raws.append((nm, t, 1))
     lines.append('st STRING "a b\\x41"')
     lines.append("sa SARRAY a b c")
     for i in range(rng.randint(2, 10)):
@@ -345,8 +354,14 @@ def gen_format(rng, d):
             lines.append("%s SINDIR %s sa" % (nm, a))
         else:
             lines.append("/ALIAS %s %s" % (nm, rng.choice(names + [nm, "nosuch"])))
-        if not lines[-1].startswith("/ALIAS") or True:
-            names.append(nm)
+        if rng.random() < 0.25:
+            # replace one numeric parameter of the last line by a scalar code
+            toks = lines[-1].split(" ")
+            cand = [j for j, t in enumerate(toks[2:], 2) if t.replace("-", "").replace(".", "").isdigit()]
+            if cand:
+                toks[rng.choice(cand)] = sc()
+                lines[-1] = " ".join(toks)
+        names.append(nm)
         if rng.random() < 0.15:
             lines.append("%s/m CONST UINT8 %d" % (nm, rng.randint(0, 9)))
         if rng.random() < 0.1:
@@ -436,7 +451,7 @@ def mutate(rng, b):
 
 
 def run_fuzz(chk, asan_impl, ncases):
-    exe = vlib.build_harness(asan_impl, os.path.join(vlib.VERIF, "harness/C05/fuzz.c"))
+    exe = vlib.build_harness(asan_impl, os.path.join(vlib.VERIF, "harness/C05/fuzz.c"), extra="-DC05_FRAMENUM")
     root = vlib.scratch("verif-c05f-")
     jobs = []
     for ci in range(ncases):
